@@ -138,6 +138,15 @@ Theorem c02_tally_order_irrelevant : forall owners its1 its2 t,
 Proof. exact tally_order_irrelevant. Qed.
 Print Assumptions c02_tally_order_irrelevant.
 
+(* refinement: the vote array built by the tally loop and aggregate_votes IS the abstract vote function votes_for
+   (the vf of c02_choose_node_meets_spec / c02_winner_plurality and of the C03 contract), whenever every winner
+   is a reference row -- so those theorems speak about the array choose_node sorts *)
+Theorem c02_tally_array_refines_votes_for : forall owners its t,
+  iters_in_range (length owners) its = true ->
+  sum_where owners (fst (tally_corr (length owners) its)) t = Z.of_nat (votes_for owners (map fst its) t).
+Proof. exact tally_refines_votes_for. Qed.
+Print Assumptions c02_tally_array_refines_votes_for.
+
 (* non-vacuity: 4 leaves owned by types 7,9,7,8; five iterations; type 7 wins through two different leaves *)
 Example c02_avg_corr_example :
   let its := [(0%nat, 512); (2%nat, 256); (1%nat, -128); (0%nat, 1024); (3%nat, 64)] in
